@@ -233,6 +233,20 @@ def templates():
         # the module as a function result (nothing folds), read through a parameter of struct type `any`
         T.append([IDF, ("fndecl", "mk", [("seed", INT)], ("any",), [("return", ("mod", [("set", "s0", V("seed"))] + body))]),
                   ("call", V("mk"), [I(1)])])
+    # a name used in a loop body BEFORE the body re-declares it (at another type; also a function re-declared below a call of
+    # the outer one): every iteration starts from the binding outside the loop
+    cond3 = ("bin", "ge", ("pre", "deref", V("i")), I(3))
+    body = [("assign", "add", V("r"), V("x")), ("set", "x", ("s", "shadow")), ("assign", "add", V("i"), I(1))]
+    fbody = [("assign", "add", V("r"), ("call", V("h"), [I(2)])), ("fndecl", "h", [("v", STR)], STR, [("return", V("v"))]), ("assign", "add", V("i"), I(1))]
+    for bd, pre in ((body, [IDF, ("set", "x", ("call", V("idf"), [I(1)]))]), (fbody, [("fndecl", "h", [("v", INT)], INT, [("return", ("bin", "mul", V("v"), I(10)))])])):
+        head = pre + [("set", "i", ("mut", INT, I(0))), ("set", "r", ("mut", INT, I(0)))]
+        stop = ("if", cond3, ("block", [("break",)]), None)
+        T.append(head + [("loop", ("block", [stop] + bd)), ("pre", "deref", V("r"))])
+        T.append(head + [("while", ("true",), ("block", [stop] + bd)), ("pre", "deref", V("r"))])
+        T.append(head + [("while", ("bin", "lt", ("pre", "deref", V("i")), I(3)), ("block", bd)), ("pre", "deref", V("r"))])
+        T.append(head + [("for", "k", ("post", "iter", ("array", [I(7), I(8), I(9)])), ("block", bd)), ("pre", "deref", V("r"))])
+        T.append([("fndecl", "run", [("n", INT)], INT, head + [("loop", ("block", [("if", ("bin", "ge", ("pre", "deref", V("i")), V("n")), ("block", [("return", ("pre", "deref", V("r")))]), None)] + bd))]),
+                  ("tuple", [("call", V("run"), [I(1)]), ("call", V("run"), [I(3)])])])
     return T
 
 
